@@ -478,7 +478,7 @@ func (g *gen) scenario(fn string) (spec, bool) {
 	case oracle.FnTransfer:
 		if x, ok := g.pickHeld(isFung); ok {
 			b := g.otherThan(x.a, nil)
-			args := [][]byte{x.h.tok, g.smallPart(x.h.val, 3)}
+			args := [][]byte{x.h.tok, g.partOrAll(x.h.val, 3)}
 			if oracle.IsContract(b) && g.r.Intn(2) == 0 {
 				args = append(args, []byte("fn"), []byte{1})
 			}
@@ -487,7 +487,7 @@ func (g *gen) scenario(fn string) (spec, bool) {
 	case oracle.FnNFTTransfer:
 		if x, ok := g.pickHeld(isNFT); ok {
 			b := g.otherThan(x.a, nil)
-			args := [][]byte{x.h.tok, x.h.nb(), g.smallPart(x.h.val, 2), b}
+			args := [][]byte{x.h.tok, x.h.nb(), g.partOrAll(x.h.val, 2), b}
 			if oracle.IsContract(b) && g.r.Intn(2) == 0 {
 				args = append(args, []byte("fn"))
 			}
@@ -520,11 +520,11 @@ func (g *gen) scenario(fn string) (spec, bool) {
 		if x, ok := g.pickHeld(func(a []byte, h holding) bool {
 			return isFung(a, h) && has(g.rolesOf(a, h.tok), oracle.RoleLocalBurn)
 		}); ok {
-			return g.user(fn, x.a, x.a, bigGas, x.h.tok, g.smallPart(x.h.val, 3)), true
+			return g.user(fn, x.a, x.a, bigGas, x.h.tok, g.partOrAll(x.h.val, 3)), true
 		}
 	case oracle.FnBurn:
 		if x, ok := g.pickHeld(isFung); ok {
-			return g.user(fn, x.a, oracle.ESDTSC, bigGas, x.h.tok, g.smallPart(x.h.val, 3)), true
+			return g.user(fn, x.a, oracle.ESDTSC, bigGas, x.h.tok, g.partOrAll(x.h.val, 3)), true
 		}
 	case oracle.FnNFTCreate:
 		toks := append(append([][]byte{}, g.sft...), g.nft...)
